@@ -81,7 +81,11 @@ def _classes(pyrex):
             return Group(spec["children"])
         return cls(spec["x"], spec["y"], spec["n"], z0=spec.get("z0", -100.0))
 
-    _classes.cache = dict(ThrAntenna=ThrAntenna, StrPlain=StrPlain, StrA=StrA, StrB=StrB,
+    class LaxCombined(pyrex.detector.CombinedDetector, mirror_set_positions=False):
+        """A combined detector that is allowed to hold antennas above the ice."""
+        test_antenna_positions = False
+
+    _classes.cache = dict(LaxCombined=LaxCombined, ThrAntenna=ThrAntenna, StrPlain=StrPlain, StrA=StrA, StrB=StrB,
                           Group=Group, make=make_detector)
     return _classes.cache
 
@@ -228,7 +232,7 @@ class C19Detector(Machine):
                     "other": rng.pick(["antenna", "list"]), "n": rng.randint(1, 3),
                     "bad": rng.randrange(3)}
         if k == "bad_iadd":
-            return {"op": "bad_iadd", "a": rng.pick(live), "other": rng.pick(["antenna", "list"]),
+            return {"op": "bad_iadd", "a": rng.pick(live), "other": rng.pick(["antenna", "list", "combined"]),
                     "n": rng.randint(1, 3), "bad": rng.randrange(3)}
         raise AssertionError(k)
 
@@ -256,6 +260,11 @@ class C19Detector(Machine):
     def _free_operand(self, op, above=None):
         """Free-standing antenna or list of antennas; above = index placed above the ice."""
         n = op.get("n", 1)
+        if op["other"] == "combined":
+            # a combined detector (allowed to hold them) bringing several subsets, one above the ice
+            ants = [self._new_antenna(z=-60.0, x=1.0), self._new_antenna(z=5.0 if above is not None else -61.0, x=2.0),
+                    self._new_antenna(z=-62.0, x=3.0)]
+            return self.K["LaxCombined"](*ants), list(ants)
         if op["other"] == "antenna":
             a = self._new_antenna(z=5.0 if above is not None else -60.0)
             return a, [a]
@@ -556,6 +565,10 @@ class C19Detector(Machine):
         a, ma = self._need(op["a"])
         if inplace and id(a) in self.nested:
             raise Skip("+= on nested detector")
+        if op["other"] == "combined" and not (inplace and isinstance(a, self.pyrex.detector.CombinedDetector)):
+            # only an in-place merge into a combined detector re-tests the merged subsets
+            # (a lax detector nested as a whole keeps its own opt-out)
+            op = dict(op, other="list")
         b, mb = self._free_operand(op, above=op["bad"])
         before = [id(x) for x in a]
 
